@@ -412,6 +412,9 @@ func runResize(t testing.TB, c *rzCase, cover func(string)) (fail *rzFail, skipp
 			if idx == nil {
 				return &rzFail{"index_missing", "", act, fmt.Sprintf("after %s, node %s has no index %s", act, id, rzIndex)}
 			}
+			if o := idx.Options(); !o.TrackExistence || o.Keys {
+				return &rzFail{"index_options", "", act, fmt.Sprintf("after %s, node %s holds index %s with options %+v, created with trackExistence", act, id, rzIndex, o)}
+			}
 			for _, fn := range append([]string{"_exists"}, rzFields...) {
 				f := idx.Field(fn)
 				if f == nil {
